@@ -621,21 +621,25 @@ TrViewF64 == IsOp("view_f64") /\ KeepAll /\ IsFin(E.res) /\ E.to \notin X!Dynami
                /\ \E x \in ViewVals(E.view, E.to) : Dy!WithinUlps(E.res, x, Ur[E.u].m, Ur[4].m, 4)
 (* constructors from a float view: the value minus the view's offset, to float precision of the *)
 (* value given (4 ulp of max(|x|, 1) in that unit) plus the truncation to a nanosecond           *)
-FromViewOK(x, u, name, v) ==
+(* JD and MJD count the days of the calendar of the scale the epoch is built in: the elapsed time is counted   *)
+(* from that scale's own reference date (zero for TAI, TT and UTC, which count from 1900-01-01)                *)
+GregRefNs(ts) == B!Add(DaysNs(GregDayR[ts]), GregTodR[ts])
+ViewOffsetIn(name, ts) == IF name \in {"mjd", "jde"} THEN B!Add(ViewOffset(name), GregRefNs(ts)) ELSE ViewOffset(name)
+FromViewOK(x, u, voff, v) ==
   LET s     == IF x.e < 0 THEN -x.e ELSE 0
       \* everything times 2^s: exact = x * unit - offset
-      exact == B!Sub(B!Mk(x.neg, B!MulMag(B!MulMag(x.m, Ur[u].m), B!Pow2Mag(s + x.e))), B!Mul(ViewOffset(name), B!Pow2(s)))
+      exact == B!Sub(B!Mk(x.neg, B!MulMag(B!MulMag(x.m, Ur[u].m), B!Pow2Mag(s + x.e))), B!Mul(voff, B!Pow2(s)))
       \* tolerance, times 2^s: 4 ulp of the largest magnitude the computation goes through (the value given,
       \* the view's offset, their difference), in nanoseconds, plus 2 ns; ulp(y) <= y * 2^-52
       xa    == B!MulMag(B!MulMag(x.m, Ur[u].m), B!Pow2Mag(s + x.e))
-      oa    == B!MulMag(ViewOffset(name).m, B!Pow2Mag(s))
+      oa    == B!MulMag(voff.m, B!Pow2Mag(s))
       m1    == IF B!CmpMag(xa, oa) >= 0 THEN xa ELSE oa
       big   == IF B!CmpMag(m1, exact.m) >= 0 THEN m1 ELSE exact.m
       tol   == B!AddMag(Dy!Shr(B!MulSmallMag(big, 4), 52)[1], B!Pow2Mag(s + 1))
   IN  B!CmpMag(B!Sub(B!Mul(v, B!Pow2(s)), exact).m, tol) <= 0
 TrFromView == IsOp("from_view") /\ KeepD /\ KeepS /\ KeepW /\ UNCHANGED sw /\ IsEp(E.res) /\ IsFin(E.x)
                /\ e' = EV(E.res) /\ e'.ts = E.ts /\ M!Canonical(<<E.res.c, Mg(E.res.n)>>) /\ eout' = <<"epoch", e'>>
-               /\ FromViewOK(E.x, E.u, E.view, e'.v)
+               /\ FromViewOK(E.x, E.u, ViewOffsetIn(E.view, E.ts), e'.v)
 
 (* Epoch::from_unix_duration(d): the UTC count is the 25 567 days from 1900-01-01 to 1970-01-01 plus d, exactly *)
 TrFromUnixDur == IsOp("from_unix_dur") /\ KeepD /\ KeepS /\ KeepW /\ UNCHANGED sw /\ IsEp(E.res)
@@ -689,7 +693,7 @@ TrParseNumeric == IsOp("parse_numeric") /\ KeepD /\ KeepS /\ KeepW /\ UNCHANGED 
                /\ (IsEp(E.res) \/ Has(E.res, "err"))
                /\ (E.must => IsEp(E.res))
                /\ e' = (IF IsEp(E.res) THEN EV(E.res) ELSE e) /\ eout' = <<"parsed", IsEp(E.res)>>
-               /\ ((IsEp(E.res) /\ E.must) => (e'.ts = E.ts /\ FromViewOK(E.x, E.u, E.view, e'.v)))
+               /\ ((IsEp(E.res) /\ E.must) => (e'.ts = E.ts /\ FromViewOK(E.x, E.u, ViewOffsetIn(E.view, E.ts), e'.v)))
 
 (* F1 through Duration * f64: the product is taken of the wrong count *)
 Dev_F1F ==
